@@ -274,6 +274,34 @@ C06_PitchBend(X) ==
                 /\ (b[1] = b[2] => v = 16383)
                 /\ (b[1] = -b[2] => v = 0)
 
+\* In lives with mapping / channel / cc-learning actions the receiver-side reading above is not judged; what the
+\* device does transmit for an axis report is: every message of the step on the axis's own controller (pitch wheel)
+\* carries the value of the reported position under the definition in force NOW - dead zone, flip and range of the
+\* current mapping - and the message for the side the stick is not on carries 0.
+C06_SentValue(X) ==
+  (Transmitted(X) /\ X.in.a \in AxesOf(X.c, X.pre.map) /\ AxisDef(X.c, X.pre, X.in.a).type \in {"cc", "pitch_bend"}) =>
+     LET ad == AxisDef(X.c, X.pre, X.in.a)
+         info == X.c.axinfo[X.in.a]
+         v == Flipped(info, ad, ShapedOf(info, ad, X.in.raw))
+         cn == CanNeg(info, ad)
+         kp == <<(X.pre.chan + ad.off) % 16, ad.cc>>
+         kn == <<(X.pre.chan + ad.offNeg) % 16, ad.ccNeg>>
+         w == IF cn THEN v ELSE Twice1(v)
+         b == WorkPos(X.c, X.pre, X.in.a, X.in.raw)
+         CCs(k) == {i \in 1..Len(X.o) : IsCC(X.o[i]) /\ PairOf(X.o[i]) = k}
+     IN IF ad.type = "pitch_bend"
+          THEN \A i \in 1..Len(X.o) : (IsPB(X.o[i]) /\ ChanOf(X.o[i]) = (X.pre.chan + ad.off) % 16) =>
+                 LET pv == X.o[i][2] + 128 * X.o[i][3]
+                 IN \/ Within1(pv, 16383, <<b[1] + b[2], 2 * b[2]>>)
+                    \/ IF b[1] < 0 THEN Within1(8192 - pv, 8192, <<-b[1], b[2]>>) ELSE Within1(pv - 8192, 8191, b)
+          ELSE IF ad.bidi
+            THEN kp # kn =>
+                   IF w[1] < 0 THEN /\ \A i \in CCs(kn) : CCValueOK(X.o[i][3], <<-w[1], w[2]>>)
+                                    /\ \A i \in CCs(kp) : X.o[i][3] = 0
+                   ELSE /\ \A i \in CCs(kp) : CCValueOK(X.o[i][3], w)
+                        /\ \A i \in CCs(kn) : X.o[i][3] = 0
+            ELSE \A i \in CCs(kp) : CCValueOK(X.o[i][3], IF cn THEN <<v[1] + v[2], 2 * v[2]>> ELSE v)
+
 \* consecutive transmitted events of one axis: the receiver value moves with the raw position
 C06_Monotone(X) ==
   (Transmitted(X) /\ X.in.a \in AxesOf(X.c, X.pre.map)
@@ -439,7 +467,7 @@ C14_NeverEarly(X) ==
 PredNames == {
   "C01_Quiescent", "C01_DisconnectSilent", "C02_ReleasePinned", "C02_ReleaseEmits", "C02_StateActionsSilent",
   "C03_PressRule", "C03_ReleaseRule", "C04_PressPitch", "C04_SilentPress", "C04_State",
-  "C05_WellFormed", "C06_Controller", "C06_PitchBend", "C06_Monotone",
+  "C05_WellFormed", "C06_Controller", "C06_PitchBend", "C06_Monotone", "C06_SentValue",
   "C07_Exclusive", "C07_SideMatches", "C07_LearningGate",
   "C08_On", "C08_OnlyConfigured", "C08_Off", "C08_Exclusive", "C08_Pinned",
   "C13_PanicOut", "C13_PanicAxis", "C13_PanicNeutral", "C13_AsIfNoPanic", "C14_Fires", "C14_NeverEarly" }
@@ -460,6 +488,7 @@ Pred(n, X) ==
     [] n = "C06_Controller" -> C06_Controller(X)
     [] n = "C06_PitchBend" -> C06_PitchBend(X)
     [] n = "C06_Monotone" -> C06_Monotone(X)
+    [] n = "C06_SentValue" -> C06_SentValue(X)
     [] n = "C07_Exclusive" -> C07_Exclusive(X)
     [] n = "C07_SideMatches" -> C07_SideMatches(X)
     [] n = "C07_LearningGate" -> C07_LearningGate(X)
@@ -478,7 +507,7 @@ Pred(n, X) ==
 Relevant(n, X) ==
   CASE X.in.ev = "axis" -> n \notin {"C02_ReleasePinned", "C02_ReleaseEmits", "C13_AsIfNoPanic", "C02_StateActionsSilent", "C03_PressRule", "C03_ReleaseRule",
                                      "C04_PressPitch", "C04_SilentPress", "C13_PanicOut", "C13_PanicNeutral", "C14_Fires"}
-    [] X.in.ev \in {"press", "release"} -> n \notin {"C06_Controller", "C06_PitchBend", "C06_Monotone", "C07_Exclusive",
+    [] X.in.ev \in {"press", "release"} -> n \notin {"C06_Controller", "C06_PitchBend", "C06_Monotone", "C06_SentValue", "C07_Exclusive",
                                      "C07_SideMatches", "C07_LearningGate", "C08_On", "C08_OnlyConfigured", "C08_Off",
                                      "C08_Exclusive", "C08_Pinned"}
     [] OTHER -> n \in {"C01_Quiescent", "C01_DisconnectSilent", "C05_WellFormed", "C14_NeverEarly"}
